@@ -1,6 +1,6 @@
 (* C12 — What coba reads from a dataset file is what the file says.  Property theorems only. *)
 From Coq Require Import ZArith List Bool.
-From Coba Require Import Generated.C12_gen C12.Model C12.ProofsLines C12.ProofsRest.
+From Coba Require Import Generated.C12_gen C12.Model C12.ModelArff C12.ProofsLines C12.ProofsRest C12.ProofsArff.
 Import ListNotations.
 Open Scope Z_scope.
 
@@ -46,6 +46,13 @@ Print Assumptions libsvm_roundtrip.
 Theorem csv_roundtrip : forall cells : list (list Z), cells <> [] -> csv_parse (csv_print cells) = cells.
 Proof. exact csv_roundtrip_lemma. Qed.
 Print Assumptions csv_roundtrip.
+
+(* ARFF dense data lines: the csv automaton with ArffLineReader's dialect (one quote character per file, backslash escapes, doublequote off,
+   skipinitialspace on) parses a line written the Weka/OpenML way (backslash before the two quote characters, backslash and percent; quotes
+   around a value that holds one of those, a space, a comma, a brace, or is empty or a lone question mark) back to the values *)
+Theorem arff_dense_line_roundtrip : forall q, q = 39 \/ q = 34 -> forall cells, cells <> [] -> arff_parse q (arff_line q cells) = cells.
+Proof. exact arff_line_roundtrip_lemma. Qed.
+Print Assumptions arff_dense_line_roundtrip.
 
 Example delim_example : delim_read brk_py [[97; 13]; [10; 98; 11]; []; [99]] = [[97]; [98]; [99]].
 Proof. vm_compute. reflexivity. Qed.
